@@ -434,4 +434,14 @@ pub fn run(rng: &mut Rng, out: &mut Out, tier: &str) {
         let mut r = rng.fork(0x1000_0000 + i as u64);
         svob_case(&mut r, out);
     }
+    // tokenizer descriptions (byte-level / byte-fallback tokenizer.json, tiktoken rank tables)
+    let nd = if tier == "thorough" { 600 } else { 60 };
+    for i in 0..nd {
+        let mut r = rng.fork(0x1600_0000 + i as u64);
+        crate::c16tok::byte_level_case(&mut r, out);
+        let mut r = rng.fork(0x1610_0000 + i as u64);
+        crate::c16tok::byte_fallback_case(&mut r, out);
+        let mut r = rng.fork(0x1620_0000 + i as u64);
+        crate::c16tok::tiktoken_case(&mut r, out);
+    }
 }
